@@ -2,6 +2,7 @@ import HC.Proto.H11
 import HC.Pure.Utils
 import HC.Props.C06
 import HC.Proto.H2Credit
+import HC.Proto.H2DeliverInv
 /-!
 # C01 — HTTP request delivery fidelity (scope and body reach the application exactly)
 
@@ -234,5 +235,150 @@ theorem one_instance (cfg : Cfg) (st : St) (o0 : List Out) (r : ReqEv) (s1 : St)
   · simp only [hsw, hws, hname, Bool.false_eq_true, if_false, if_true, Bool.not_true, Option.some.injEq, Prod.mk.injEq] at h
     obtain ⟨rfl, rfl⟩ := h
     simp [St.newObj]
+
+/-! ### HTTP/2 end to end: h2 events → `H2Protocol` glue → `HTTPStream` → application -/
+section H2
+open HC.Proto.H2Deliver
+
+/-- the source facts the contents wrapper rests on (read off `h2.py` by `tools/extract_req.py`): the `Request` event of
+    `_create_stream`, the header loop that binds `method` / `raw_path`, the `Body` event of a `DataReceived` -/
+theorem h2_request_event_assumed :
+    ReqGlue.h2RequestArgs = ["stream_id=request.stream_id", "headers=filter_pseudo_headers(request.headers)", "http_version='2'", "method=method",
+                             "raw_path=raw_path", "state=self.connection_state"] ∧
+    ReqGlue.h2HeaderLoop = ["name == b':method': method = value.decode('ascii').upper()", "name == b':path': raw_path = value"] ∧
+    ReqGlue.dataBodyArgs = ["stream_id=event.stream_id", "data=event.data"] := by decide
+
+/-- **HTTP/2 request delivery, for every interleaving.**  Take any run of the receive side of `H2Protocol` — h2 events of any
+    number of streams, PRIORITY / WINDOW_UPDATE / SETTINGS, the applications' `stream_send` calls and the send task's
+    iterations in any order, the libraries answering as they may — in which stream `i`, not known before, receives
+    `RequestReceived(headers)`, then `DataReceived` events `ds`, then `StreamEnded` iff `complete`; the request is one
+    `_create_stream` accepts and the stream is not removed in between (`Adm`: no RST_STREAM for it, connection not closed, its
+    application has not finished).  Then stream `i`'s object is created **exactly once** and handed **exactly**: the
+    `Request` event built from those headers, then one `Body` per DATA event carrying that event's payload, in order, then
+    `EndBody` iff the client ended the stream — nothing else, whatever the other streams did. -/
+theorem h2_request_delivered (i kaMax : Nat) (s0 s : HC.Proto.H2Recv.St) (ops : List RxOp) (dl : List Dlv)
+    (hrun : rxRun kaMax s0 ops = .ok (s, dl)) (hadm : Adm i kaMax s0 ops) (hfresh : i ∉ s0.streams)
+    (hs : Headers) (ins lib : Option HC.Proto.H2Recv.Exn) (ds : List (Bytes × Nat)) (complete : Bool)
+    (hrx : ops.filter (rxFor i) = [RxOp.request i hs ins lib] ++ ds.map (fun p => RxOp.data i p.1 p.2) ++
+              (if complete then [RxOp.low (.ev (.ended i))] else [])) :
+    dlvFor i dl = [Dlv.start i (reqOf i hs).isConnect (requestOf hs)] ++ ds.map (fun p => Dlv.body i p.1) ++
+                    (if complete then [Dlv.endBody i] else []) := by
+  obtain ⟨h1, _⟩ := deliveries i kaMax ops s0 s dl hrun hadm
+  rw [h1, hrx]
+  simp only [hfresh, decide_false, List.cons_append, List.nil_append, expectR, List.append_assoc]
+  rw [expectR_live]
+  cases complete <;> simp [expectR]
+
+/-- **every DATA frame is acknowledged exactly once** (`acknowledge_received_data(flow_controlled_length, stream_id)`), in
+    order, in *every* run — whether the frame's stream is live, was reset, has completed its response, or the connection was
+    closed — so the client's connection window is given back in full -/
+theorem h2_data_acked (kaMax : Nat) (s0 s : HC.Proto.H2Recv.St) (ops : List RxOp) (dl : List Dlv)
+    (hrun : rxRun kaMax s0 ops = .ok (s, dl)) (hok : ∀ op ∈ ops, op.ok = true) :
+    acksOf dl = flowsOf ops ∧ ((acksOf dl).map (·.2)).sum = ((flowsOf ops).map (·.2)).sum := by
+  have := run_acks kaMax ops s0 s dl hrun hok
+  exact ⟨this, by rw [this]⟩
+
+/-- the number of acknowledgements the receive-side model makes per DATA event is the number the extractor counts in the
+    source, on both paths (stream there / stream gone) — the link between `HC.Proto.H2Recv` and `HC.Proto.H2Credit` -/
+theorem h2_ack_paths (kaMax : Nat) (s : HC.Proto.H2Recv.St) (j : Nat) (d : Bytes) (f : Nat) :
+    ∃ s1 d1, rxStep kaMax s (.data j d f) = .ok (s1, d1) ∧ s1 = s ∧
+      (acksOf d1).length = (if j ∈ s.streams then ReqGlue.dataAcksDelivered else ReqGlue.dataAcksMissing) ∧
+      acksOf d1 = List.replicate (HC.Proto.H2Credit.acked { len := 1, live := decide (j ∈ s.streams) }) (j, f) := by
+  by_cases hl : j ∈ s.streams
+  · refine ⟨s, [Dlv.body j d, Dlv.ack j f], ?_, rfl, ?_, ?_⟩
+    · simp [rxStep, RxOp.abs, HC.Proto.H2Recv.step, HC.Proto.H2Recv.onEvent, hl, decorate]
+    · simp [acksOf, hl, ReqGlue.dataAcksDelivered]
+    · simp [acksOf, hl, HC.Proto.H2Credit.acked, ReqGlue.dataAcksDelivered]
+  · refine ⟨s, [Dlv.ack j f], ?_, rfl, ?_, ?_⟩
+    · simp [rxStep, RxOp.abs, HC.Proto.H2Recv.step, HC.Proto.H2Recv.onEvent, hl, decorate, catches_data_keyError]
+    · simp [acksOf, hl, ReqGlue.dataAcksMissing]
+    · simp [acksOf, hl, HC.Proto.H2Credit.acked, ReqGlue.dataAcksMissing]
+
+/-- the `HTTPStream` created for a `Request` event (the same class serves HTTP/1: cf. `H11.onLibEvBody`) -/
+def streamOf (r : Request) (validName : Bool) : Http.S :=
+  { method := r.method, version := r.version, reqHeaders := r.headers, hasAppPut := validName, closed := !validName,
+    st := if validName then .request else .closed }
+
+/-- what a delivery is for the stream object -/
+def toIn : Dlv → Option Http.In
+  | .body _ d => some (.body d)
+  | .endBody _ => some .endBody
+  | .closed _ => some .streamClosed
+  | _ => none
+
+/-- **C01 over HTTP/2, end to end in the model**: under the hypotheses of `h2_request_delivered`, for a request that is not a
+    CONNECT and names a configured server: exactly one stream object is created for `i`, its scope is (method upper-cased,
+    `:path` split at the first `?` with nothing lost, header list `filter_pseudo_headers(headers)`, HTTP version "2"), and the
+    `http.request` messages its application is put are exactly the DATA payloads in order (`more_body = True`) followed by
+    one final message iff the client ended the stream: the bodies concatenate to what the client sent. -/
+theorem h2_request_end_to_end (i kaMax : Nat) (s0 s : HC.Proto.H2Recv.St) (ops : List RxOp) (dl : List Dlv)
+    (hrun : rxRun kaMax s0 ops = .ok (s, dl)) (hadm : Adm i kaMax s0 ops) (hfresh : i ∉ s0.streams)
+    (hs : Headers) (ins lib : Option HC.Proto.H2Recv.Exn) (ds : List (Bytes × Nat)) (complete : Bool)
+    (hrx : ops.filter (rxFor i) = [RxOp.request i hs ins lib] ++ ds.map (fun p => RxOp.data i p.1 p.2) ++
+              (if complete then [RxOp.low (.ev (.ended i))] else [])) :
+    ∃ rest, dlvFor i dl = Dlv.start i (reqOf i hs).isConnect (requestOf hs) :: rest ∧
+      (∀ ws r, Dlv.start i ws r ∉ rest) ∧
+      -- the scope
+      (HC.Proto.H2Deliver.scopeOf (requestOf hs)).method = Bytes.toString (Bytes.upper ((lastVal hs ":method".b).getD [])) ∧
+      (HC.Proto.H2Deliver.scopeOf (requestOf hs)).version = "2" ∧
+      (HC.Proto.H2Deliver.scopeOf (requestOf hs)).headers = filterPseudo hs ∧
+      (63 : UInt8) ∉ (HC.Proto.H2Deliver.scopeOf (requestOf hs)).rawPath ∧
+      ((lastVal hs ":path".b).getD [] = (HC.Proto.H2Deliver.scopeOf (requestOf hs)).rawPath ++ (HC.Proto.H2Deliver.scopeOf (requestOf hs)).query ∨
+       (lastVal hs ":path".b).getD [] = (HC.Proto.H2Deliver.scopeOf (requestOf hs)).rawPath ++ 63 :: (HC.Proto.H2Deliver.scopeOf (requestOf hs)).query) ∧
+      -- the body
+      (feedBody (streamOf (requestOf hs) true) (rest.filterMap toIn)).2 = bodyPuts (ds.map (·.1)) complete ∧
+      concatBodies (bodyPuts (ds.map (·.1)) complete) = (ds.map (·.1)).flatten ∧
+      finals (bodyPuts (ds.map (·.1)) complete) = (if complete then 1 else 0) := by
+  have hd := h2_request_delivered i kaMax s0 s ops dl hrun hadm hfresh hs ins lib ds complete hrx
+  refine ⟨ds.map (fun p => Dlv.body i p.1) ++ (if complete then [Dlv.endBody i] else []), by simpa using hd, ?_, rfl, rfl, rfl, ?_, ?_, ?_, ?_⟩
+  · intro ws r hmem
+    rcases List.mem_append.mp hmem with h | h
+    · simp at h
+    · cases complete <;> simp at h
+  · have hj := Bytes.partitionB_join 63 ((lastVal hs ":path".b).getD [])
+    simp only [HC.Proto.H2Deliver.scopeOf, requestOf]
+    cases hp : Bytes.partitionB 63 ((lastVal hs ":path".b).getD []) with
+    | mk h ft => obtain ⟨f, t⟩ := ft; simp only [hp] at hj; exact hj.2.1
+  · have hj := Bytes.partitionB_join 63 ((lastVal hs ":path".b).getD [])
+    simp only [HC.Proto.H2Deliver.scopeOf, requestOf]
+    cases hp : Bytes.partitionB 63 ((lastVal hs ":path".b).getD []) with
+    | mk h ft =>
+      obtain ⟨f, t⟩ := ft
+      simp only [hp] at hj
+      cases f with
+      | true => right; simpa using hj.1
+      | false => left; simpa using hj.1
+  · have hin : (ds.map (fun p => Dlv.body i p.1) ++ (if complete then [Dlv.endBody i] else [])).filterMap toIn =
+        (ds.map (·.1)).map Http.In.body ++ (if complete then [Http.In.endBody] else []) := by
+      rw [List.filterMap_append]
+      congr 1
+      · have : ∀ l : List (Bytes × Nat), (l.map (fun p => Dlv.body i p.1)).filterMap toIn = (l.map (·.1)).map Http.In.body := by
+          intro l
+          induction l with
+          | nil => rfl
+          | cons p t ih => simp only [List.map_cons, List.filterMap_cons, toIn, ih]
+        exact this ds
+      · cases complete <;> simp [toIn]
+    rw [hin]
+    exact (body_messages (streamOf (requestOf hs) true) rfl (ds.map (·.1)) complete).1
+  · exact body_concat (ds.map (·.1)) complete
+
+/-- non-vacuity: two streams interleaved, a WINDOW_UPDATE in between, stream 3's application finishing before its last DATA frame
+    arrives (still acknowledged), stream 1 complete — the hypotheses of `h2_request_delivered` hold for stream 1 -/
+def exRx : List RxOp :=
+  [.request 1 [(":method".b, "post".b), (":path".b, "/a?b=1".b), (":authority".b, "x".b), ("x-k".b, "1".b)] none none,
+   .request 3 [(":method".b, "PUT".b), (":path".b, "/p".b), (":authority".b, "x".b)] none none,
+   .data 1 "ab".b 2, .data 3 "zz".b 5, .low (.ev (.window 0)), .low (.app 3 (.streamClosed false none)), .data 3 "late".b 4,
+   .data 1 "c".b 1, .low (.ev (.ended 1)), .low .batchEnd]
+
+example : ∃ s dl, rxRun 10 {} exRx = .ok (s, dl) ∧ admB 1 10 {} exRx = true ∧
+    dlvFor 1 dl = [.start 1 false { headers := [("host".b, "x".b), ("x-k".b, "1".b)], version := "2", method := "POST", rawPath := "/a?b=1".b },
+                   .body 1 "ab".b, .body 1 "c".b, .endBody 1] ∧
+    acksOf dl = [(1, 2), (3, 5), (3, 4), (1, 1)] ∧
+    (HC.Proto.H2Deliver.scopeOf (requestOf [(":method".b, "post".b), (":path".b, "/a?b=1".b), (":authority".b, "x".b), ("x-k".b, "1".b)])).query = "b=1".b := by
+  refine ⟨_, _, rfl, ?_⟩
+  decide
+
+end H2
 
 end HC.Props.C01
